@@ -138,6 +138,7 @@ def gen_rem_script(rng, name, max_ops=40):
     owner = {}          # handle id -> list
     target = {}         # live remover -> target list
     issued = 0
+    gone = []           # handles detached directly (`remove`)
 
     def handle_for(l):
         mine = [h for h, o in owner.items() if o == l]
@@ -163,7 +164,18 @@ def gen_rem_script(rng, name, max_ops=40):
                 owner[issued] = target[R]
                 issued += 1
         elif r < 0.50:
-            lines.append("do rremove %d %d" % (R, rng.randint(0, max(0, issued))))
+            # also: a listener that was already detached directly, removed again through (one of) the removers
+            mine_any = [h for h in owner]
+            if mine_any and rng.random() < 0.3:
+                h = rng.choice(mine_any)
+                lines.append("do rremoveheld %d %d %d" % (R, owner[h], h))
+                gone.append(h)
+            elif gone and rng.random() < 0.35:
+                h = rng.choice(gone)
+                for RR in rng.sample(range(3), 3):
+                    lines.append("do rremove %d %d" % (RR, h))
+            else:
+                lines.append("do rremove %d %d" % (R, rng.randint(0, max(0, issued))))
         elif r < 0.56:
             lines.append("do rreset %d" % R)
         elif r < 0.62:
@@ -186,17 +198,20 @@ def gen_rem_script(rng, name, max_ops=40):
             lines.append("do rswap %d %d" % (R, S))
             if R in target and S in target:
                 target[R], target[S] = target[S], target[R]
-        elif r < 0.92:
+        elif r < 0.90:
             lines.append("do rdestroy %d" % R)
             target.pop(R, None)
-        elif r < 0.97:
+        elif r < 0.94:
             l = rng.randrange(nl)
             lines.append("do append %d %d" % (l, rng.randint(1, 9)))
             owner[issued] = l
             issued += 1
         else:
             l = rng.randrange(nl)
-            lines.append("do remove %d %d" % (l, handle_for(l)))
+            h = handle_for(l)
+            lines.append("do remove %d %d" % (l, h))
+            if h in owner:
+                gone.append(h)
     for R in range(3):
         lines.append("do rdestroy %d" % R)
     return "\n".join(lines) + "\n"
@@ -328,10 +343,15 @@ def rem_oracle(script, canon):
             direct.add(int(r[1:]))
         elif c[0] == "remove" and r == "true":
             removed_direct.add(int(c[2]))
+        elif c[0] == "rremoveheld":
+            if r == "true":
+                return "the remover reported that listener %s was attached although it had just been detached directly" % c[3]
         elif c[0] == "rremove":
             h = int(c[2])
             if r == "true" and h in ids_now:
                 return "rremove reported success but listener %d is still attached" % h
+            if r == "true" and h not in ids_before:
+                return "rremove reported that listener %d was attached, but it was not (detached earlier)" % h
             if r == "false" and h in ids_before and h not in ids_now:
                 return "rremove reported failure but detached listener %d" % h
         if c[0] == "rnew" and r == "unit":
@@ -352,7 +372,7 @@ def rem_oracle(script, canon):
 
 
 def is_rem_script(text):
-    return re.search(r"^do r(new|append|prepend|insert|remove|reset|target|movector|moveassign|swap|destroy) ", text, re.M) is not None
+    return re.search(r"^do r(new|append|prepend|insert|remove|removeheld|reset|target|movector|moveassign|swap|destroy) ", text, re.M) is not None
 
 
 def judge(r, impl_status):
